@@ -423,6 +423,11 @@ func (s *Server) DidSave(ctx context.Context, params *protocol.DidSaveTextDocume
 		Logger()
 
 	if isGohtFile, goURI := toGohtGoURI(params.TextDocument.URI); isGohtFile {
+		if params.Text != nil {
+			// never show template text to the Go language server
+			goSrc := s.goSrcs[string(params.TextDocument.URI)]
+			params.Text = &goSrc
+		}
 		params.TextDocument.URI = goURI
 	}
 	err := s.Server.DidSave(ctx, params)
